@@ -1154,8 +1154,19 @@ class FortranFile:
     def strip_comment(self, line: str) -> str:
         """Strip comment from line"""
         if self.fixed:
-            if FRegex.FIXED_COMMENT.match(line) and not FRegex.FIXED_OPENMP.match(line):
+            if FRegex.FIXED_OPENMP.match(line):
+                return line
+            if FRegex.FIXED_COMMENT.match(line):
                 return ""
+            # "!" outside a character literal starts a comment in fixed form too,
+            # except in column 6 where it marks a continuation line
+            comm_ind = find_comment_start(line)
+            if comm_ind == 5:
+                comm_ind = find_comment_start(line[6:])
+                if comm_ind >= 0:
+                    comm_ind += 6
+            if comm_ind >= 0:
+                line = line[:comm_ind]
         else:
             if FRegex.FREE_OPENMP.match(line) is None:
                 comm_ind = find_comment_start(line)
